@@ -173,6 +173,7 @@ type fixture struct {
 	sres, cres  []uint64
 	initialized bool
 	err         error
+	dir         string
 }
 
 var fx fixture
@@ -194,6 +195,7 @@ func (f *fixture) build() error {
 	if err != nil {
 		return err
 	}
+	f.dir = dir
 	bkt := objstore.NewInMemBucket()
 	mk := func(as, bs []string) []labels.Labels {
 		var out []labels.Labels
@@ -686,6 +688,11 @@ func gen(r *rand.Rand, tier string, n int) []any {
 }
 
 func main() {
+	defer func() {
+		if fx.dir != "" {
+			_ = os.RemoveAll(fx.dir) // blocks and store directories of the fixture
+		}
+	}()
 	common.Main(common.Prop{ID: "C09", Facts: facts, Gen: gen, Run: run, QuickN: 800, ThoroughN: 15000,
 		Preamble: "Open Scope N_scope.\n"})
 }
